@@ -80,6 +80,7 @@ def gen_spec(rng, solver, df, pen, seed, coords):
                 fit_intercept=icpt, strategy=strategy, n=n, p=p,
                 xkind=str(rng.choice(["gauss", "ar", "shifted"])), rho=float(rng.choice([0.6, 0.97])),
                 alpha_frac=float(rng.choice([0.005, 0.05, 0.3])), positive=True, knobs=knobs,
+                zero_weights=bool(rng.integers(0, 2)),
                 group_style=str(rng.choice(["contig", "perm"])), warm=str(rng.choice(["zero", "dense", "sparse"])))
     return spec
 
